@@ -162,3 +162,219 @@ def run(repo: Repo, rep: Report) -> None:
             if isinstance(e, ast.Attribute) and e.attr == "value" and isinstance(e.value, ast.Name):
                 rep.ob("C09.d-python-value-not-tested-by-truthiness", tm, "Literal." + name, "%s [in %s: %s]" % (norm(e), kind, norm(getattr(owner, "test", owner))[:70]), False,
                        "%s is a Python value: 0, 0.0, False and '' are falsy, so zero-valued literals take the `no value` path" % norm(e), node=e)
+
+    more_rules(repo, rep, tm, xd, conv, entries, is_sub)
+
+
+# XSD 1.1 part 2 value-space bounds of the integer-derived datatypes (facts of the specification; None = unbounded)
+XSD_INT_BOUNDS = {
+    "int": (-2 ** 31, 2 ** 31 - 1), "short": (-2 ** 15, 2 ** 15 - 1), "byte": (-128, 127), "long": (-2 ** 63, 2 ** 63 - 1),
+    "unsignedInt": (0, 2 ** 32 - 1), "unsignedShort": (0, 2 ** 16 - 1), "unsignedByte": (0, 255), "unsignedLong": (0, 2 ** 64 - 1),
+    "nonNegativeInteger": (0, None), "positiveInteger": (1, None), "nonPositiveInteger": (None, 0), "negativeInteger": (None, -1), "integer": (None, None),
+}
+# Python types whose str() (the lexical form when a rule has no lexicaliser) leaves the lexical space of the datatype: stdlib facts
+STR_OUTSIDE_LEXICAL_SPACE = {"float": "str(float('inf')) == 'inf', str(float('nan')) == 'nan'; XSD writes INF, -INF, NaN"}
+
+
+def _fold(e: ast.AST):
+    """constant-fold an integer expression; None if not constant"""
+    if isinstance(e, ast.Constant) and isinstance(e.value, int) and not isinstance(e.value, bool):
+        return e.value
+    if isinstance(e, ast.UnaryOp) and isinstance(e.op, (ast.USub, ast.UAdd)):
+        v = _fold(e.operand)
+        return None if v is None else (-v if isinstance(e.op, ast.USub) else v)
+    if isinstance(e, ast.BinOp):
+        a, b = _fold(e.left), _fold(e.right)
+        if a is None or b is None:
+            return None
+        if isinstance(e.op, ast.Add):
+            return a + b
+        if isinstance(e.op, ast.Sub):
+            return a - b
+        if isinstance(e.op, ast.Mult):
+            return a * b
+        if isinstance(e.op, ast.Pow) and 0 <= b <= 256:
+            return a ** b
+        if isinstance(e.op, ast.LShift) and 0 <= b <= 256:
+            return a << b
+    return None
+
+
+def _accepts(e: ast.AST, vname: str, v: int, int_types: set[str]):
+    """three-valued: does the checker expression accept integer value v (lexical assumed non-empty)?"""
+    if isinstance(e, ast.BoolOp):
+        vals = [_accepts(x, vname, v, int_types) for x in e.values]
+        if isinstance(e.op, ast.And):
+            return False if any(x is False for x in vals) else (True if all(x is True for x in vals) else None)
+        return True if any(x is True for x in vals) else (False if all(x is False for x in vals) else None)
+    if isinstance(e, ast.UnaryOp) and isinstance(e.op, ast.Not):
+        x = _accepts(e.operand, vname, v, int_types)
+        return None if x is None else not x
+    if isinstance(e, ast.Call) and norm(e.func) == "isinstance" and len(e.args) == 2 and norm(e.args[0]) == vname:
+        ts = [norm(t) for t in (e.args[1].elts if isinstance(e.args[1], ast.Tuple) else [e.args[1]])]
+        return any(t in int_types for t in ts)
+    if isinstance(e, ast.Compare):
+        if norm(e.left).startswith("len(") and len(e.ops) == 1 and isinstance(e.ops[0], ast.Gt) and _fold(e.comparators[0]) == 0:
+            return True  # len(lexical) > 0: lexical forms of integers are non-empty
+        terms = [e.left] + list(e.comparators)
+        vals = []
+        for t in terms:
+            if norm(t) == vname:
+                vals.append(v)
+            else:
+                c = _fold(t)
+                if c is None:
+                    return None
+                vals.append(c)
+        ok = True
+        for (a, b), op in zip(zip(vals, vals[1:]), e.ops):
+            if isinstance(op, ast.Lt):
+                ok = ok and a < b
+            elif isinstance(op, ast.LtE):
+                ok = ok and a <= b
+            elif isinstance(op, ast.Gt):
+                ok = ok and a > b
+            elif isinstance(op, ast.GtE):
+                ok = ok and a >= b
+            elif isinstance(op, ast.Eq):
+                ok = ok and a == b
+            elif isinstance(op, ast.NotEq):
+                ok = ok and a != b
+            else:
+                return None
+        return ok
+    if isinstance(e, ast.Constant) and isinstance(e.value, bool):
+        return e.value
+    return None
+
+
+def more_rules(repo, rep, tm, xd, conv, entries, is_sub) -> None:
+    # ------------------------------------------------------------------ (e)
+    rep.rule("C09.e-year-field-padded",
+             "every strftime format with a %Y field that a Python->XSD lexicaliser (generic or datatype-specific rule) can reach is padded with zfill: "
+             "the C library does not zero-pad years below 1000, and XSD date/time lexical forms need at least four year digits", floor=2)
+    spec = _table(tm, "_SpecificPythonToXSDRules")
+    lexers: list[tuple[str, ast.AST]] = []
+    for t, c, d, e in entries:
+        lexers.append(("%s -> %s" % (t, d), e.elts[1].elts[0]))
+    if isinstance(spec, ast.List):
+        for e in spec.elts:
+            if isinstance(e, ast.Tuple) and len(e.elts) == 2:
+                lexers.append((norm(e.elts[0]), e.elts[1]))
+    mods = {"term": tm, "xsd": xd}
+
+    def fn_named(name: str):
+        for m in (tm, xd):
+            if m.has(name) and isinstance(m.defs[name], (ast.FunctionDef, ast.AsyncFunctionDef)):
+                return m, m.defs[name]
+        return None, None
+
+    for label, lx in lexers:
+        seen: set[str] = set()
+        work: list[tuple[object, ast.AST]] = []
+        if isinstance(lx, ast.Lambda):
+            work.append((tm, lx))
+        elif isinstance(lx, ast.Name):
+            m, f = fn_named(lx.id)
+            if f is not None:
+                work.append((m, f))
+        while work:
+            m, f = work.pop()
+            for n in ast.walk(f):
+                if isinstance(n, ast.Call) and isinstance(n.func, ast.Name) and n.func.id not in seen:
+                    seen.add(n.func.id)
+                    m2, f2 = fn_named(n.func.id)
+                    if f2 is not None:
+                        work.append((m2, f2))
+                if isinstance(n, ast.Call) and isinstance(n.func, ast.Attribute) and n.func.attr == "strftime" and n.args \
+                        and isinstance(n.args[0], ast.Constant) and isinstance(n.args[0].value, str) and "%Y" in n.args[0].value:
+                    padded = False
+                    ps = list(m.parents(n))[:2]
+                    if len(ps) == 2 and isinstance(ps[0], ast.Attribute) and ps[0].attr == "zfill" and isinstance(ps[1], ast.Call) and ps[1].func is ps[0]:
+                        width = _fold(ps[1].args[0]) if ps[1].args else None
+                        padded = width is not None and width >= 4
+                    rep.ob("C09.e-year-field-padded", m, label, n, padded,
+                           "zero-padded" if padded else "strftime(%r) is reachable from the lexicaliser of %s and its result is not zfill-padded: a year below 1000 is written with fewer than four digits, "
+                           "which is not a valid lexical form and does not parse back" % (n.args[0].value, label), node=n)
+
+    # ------------------------------------------------------------------ (f)
+    rep.rule("C09.f-well-formed-checker-accepts-value-space",
+             "every registered well-formedness checker of an integer-derived datatype accepts both ends of that datatype's XSD value space (and a far value on an "
+             "unbounded side), evaluated by constant folding of its comparison chain; an isinstance test in a checker admits every Python type the datatype's converter "
+             "can produce", floor=16)
+    wf = _table(tm, "_check_well_formed_types")
+    int_types = {k for k, v in STD.items() if v is int}
+    for k, v in zip(wf.keys, wf.values):
+        d = _const_str(tm, k)
+        local = d.split("+")[-1] if d else ""
+        if not (tm.has(norm(v)) and isinstance(tm.defs[norm(v)], ast.FunctionDef)):
+            continue
+        f = tm.defs[norm(v)]
+        rets = [r for r in own_nodes(f) if isinstance(r, ast.Return) and r.value is not None]
+        vname = f.args.args[1].arg if len(f.args.args) >= 2 else "value"
+        # isinstance coverage
+        cv = conv.get(d)
+        produces = [p.strip() for p in CONVERTER_RESULT.get(cv, cv or "").split("|") if p.strip()]
+        for n in own_nodes(f):
+            if isinstance(n, ast.Call) and norm(n.func) == "isinstance" and len(n.args) == 2 and norm(n.args[0]) == vname:
+                ts = [norm(t) for t in (n.args[1].elts if isinstance(n.args[1], ast.Tuple) else [n.args[1]])]
+                missing = [p for p in produces if not any(is_sub(p, t) for t in ts)]
+                rep.ob("C09.f-well-formed-checker-accepts-value-space", tm, norm(v), "%s: %s admits converter results %s" % (local, norm(n), "|".join(produces)), not missing,
+                       "" if not missing else "the converter registered for %s (%s) can return %s, which this isinstance test rejects: valid lexical forms with such a value are flagged ill-typed" % (local, cv, "/".join(missing)), node=n)
+        if local not in XSD_INT_BOUNDS or len(rets) != 1:
+            continue
+        lo, hi = XSD_INT_BOUNDS[local]
+        pts = []
+        pts.append(lo if lo is not None else -10 ** 30)
+        pts.append(hi if hi is not None else 10 ** 30)
+        if (lo is None or lo <= 0) and (hi is None or hi >= 0):
+            pts.append(0)
+        for pt in pts:
+            a = _accepts(rets[0].value, vname, pt, int_types)
+            if a is None:
+                rep.info.setdefault("C09.f_unmodelled", []).append("%s at %d" % (norm(v), pt))
+                continue
+            rep.ob("C09.f-well-formed-checker-accepts-value-space", tm, norm(v), "%s accepts %d" % (local, pt), a,
+                   "in the value space and accepted" if a else "%d is in the value space of xsd:%s but the checker rejects it: the valid literal is flagged ill-typed" % (pt, local), node=rets[0])
+
+    # ------------------------------------------------------------------ (g)
+    rep.rule("C09.g-duration-equality-covers-timedelta",
+             "parse_xsd_duration hands back a plain timedelta when a duration has no year/month part; Duration.__eq__ / __ne__ therefore compare their "
+             "day-time part with a non-Duration operand (so the value read back from the lexical form of a Duration equals the Duration)", floor=2)
+    pd = xd.func("parse_xsd_duration")
+    ret_kinds = {norm(r.value.func) for r in ast.walk(pd) if isinstance(r, ast.Return) and isinstance(r.value, ast.Call)}
+    rep.info["parse_xsd_duration_returns"] = sorted(ret_kinds)
+    if "timedelta" in ret_kinds:
+        dm = xd.methods("Duration")
+        for name, op in (("__eq__", ast.Eq), ("__ne__", ast.NotEq)):
+            f = dm.get(name)
+            if f is None:
+                rep.ob("C09.g-duration-equality-covers-timedelta", xd, "Duration." + name, "defined", False, "Duration.%s vanished" % name, node=xd.cls("Duration"))
+                continue
+            other = f.args.args[1].arg
+            hit = None
+            for n in own_nodes(f):
+                if isinstance(n, ast.Compare) and len(n.ops) == 1 and isinstance(n.ops[0], (ast.Eq, ast.NotEq)):
+                    sides = {norm(n.left), norm(n.comparators[0])}
+                    if sides == {"self.tdelta", other}:
+                        hit = n
+            rep.ob("C09.g-duration-equality-covers-timedelta", xd, "Duration." + name, hit if hit is not None else "compares self.tdelta with %s" % other, hit is not None,
+                   "timedelta operand handled" if hit is not None else
+                   "no comparison of self.tdelta with the other operand: a Duration without year/month part no longer equals the timedelta that parse_xsd_duration returns for its own lexical form", node=hit or f)
+
+    # ------------------------------------------------------------------ (h)
+    rep.rule("C09.h-lexicaliser-where-str-is-not-xsd",
+             "a generic Python->XSD rule without lexicaliser writes str(value); for float that is 'inf', '-inf', 'nan', which are outside the lexical space of "
+             "xsd:double (INF, -INF, NaN): such a type needs a lexicaliser", floor=1)
+    for t, c, d, e in entries:
+        if t in STR_OUTSIDE_LEXICAL_SPACE:
+            ok = c != "None"
+            why = "no lexicaliser: %s, so Literal(float('inf')) and normalisation of 'INF'^^xsd:double carry a lexical form outside the datatype's lexical space" % STR_OUTSIDE_LEXICAL_SPACE[t]
+            if ok:
+                lx = e.elts[1].elts[0]
+                body = lx if isinstance(lx, ast.Lambda) else (fn_named(lx.id)[1] if isinstance(lx, ast.Name) else None)
+                consts = [n.value for n in ast.walk(body) if isinstance(n, ast.Constant) and isinstance(n.value, str)] if body is not None else []
+                ok = any("INF" in x for x in consts) and any("NaN" in x for x in consts)
+                why = "the lexicaliser %s never writes the XSD spellings INF / NaN (string constants found: %s)" % (c, consts[:6])
+            rep.ob("C09.h-lexicaliser-where-str-is-not-xsd", tm, "_GenericPythonToXSDRules", "%s -> %s lexicaliser %s" % (t, d, c), ok,
+                   "lexicaliser present and writes INF / NaN" if ok else why, node=e)
